@@ -60,6 +60,7 @@ type anteH struct {
 	w       *World
 	nval    int
 	lastCfg string
+	intf    int // the account that signs interference transactions (see interfere)
 	denoms  []string
 }
 
@@ -88,8 +89,9 @@ func lookalike(r *Rec, d string) string {
 var anteDenoms = []string{"frozen", "tka", "ubtc", "ueth", "ukex", "xeth"}
 
 func newAnteH(r *Rec, nacc, nval int) *anteH {
-	w := NewWorld(WorldOpts{NAcc: nacc, NVal: nval, SudoAccs: []int{0}, Balance: anteBalance()})
-	h := &anteH{r: r, w: w, nval: nval, denoms: anteDenoms}
+	// one more account than the generators use: a second sudo account that only ever signs the interference transactions
+	w := NewWorld(WorldOpts{NAcc: nacc + 1, NVal: nval, SudoAccs: []int{0, nacc}, Balance: anteBalance()})
+	h := &anteH{r: r, w: w, nval: nval, denoms: anteDenoms, intf: nacc}
 	// warm-up block: the fee collector account and every signer account exist afterwards
 	var txs []txCase
 	for i := nval; i < nacc; i++ {
@@ -124,6 +126,54 @@ func (h *anteH) mkUpsert(from int) aMsg {
 func (h *anteH) mkCouncilor(from int) aMsg {
 	m := govtypes.NewMsgClaimCouncilor(h.w.addrs[from], "m", "u", "", "", "", "")
 	return aMsg{msg: m, kind: "o", label: "claim_councilor"}
+}
+
+// interference: a transaction of the sudo account (account 0) that TRIES to change the configuration the filters read but
+// is rolled back: (a) [MsgSetExecutionFee(type, 0, 0), a bank send of more than the account holds] - the second message
+// fails, the whole transaction is reverted; (b) MsgSubmitProposal carrying a change of the freeze lists / the execution
+// fees - gov dry-runs the content on a cache context that is thrown away. Delivered first in a block; the transactions
+// behind it must be judged by the configuration in the STORE (which the model is given), not by whatever the reverted
+// writes left in memory.
+func (h *anteH) interfere(ic implCfg) txCase {
+	r := h.r
+	me := h.w.addrs[h.intf]
+	fee := ukex(500_000_000_000) // the largest admissible fee: the interference itself should get through the ante chain whenever possible
+	if ic.max < 500_000_000_000 {
+		fee = ukex(int64(ic.max))
+	}
+	switch r.Rng.Intn(3) {
+	case 0:
+		ty := pick(r, msgTypeCands)
+		m1 := aMsg{msg: govtypes.NewMsgSetExecutionFee(ty, 0, 0, 10, 0, me), kind: "o", label: "set_execution_fee"}
+		m2 := h.mkSend(h.intf, 1, ukex(4_000_000_000_000_000))
+		return txCase{msgs: []aMsg{m1, m2}, payer: h.intf, fee: fee, tag: "interfere:set-exec-fee-then-fail"}
+	case 1:
+		var list []string
+		for _, d := range anteDenoms {
+			if d != ic.native && ic.frozen(d) {
+				list = append(list, d)
+			}
+		}
+		content := tokenstypes.NewTokensWhiteBlackChangeProposal(true, false, list) // take every frozen token off the blacklist
+		if len(list) == 0 || r.Rng.Intn(3) == 0 {
+			content = tokenstypes.NewTokensWhiteBlackChangeProposal(false, true, anteDenoms) // whitelist everything
+		}
+		m, err := govtypes.NewMsgSubmitProposal(me, "t", "d", content)
+		if err != nil {
+			panic(err)
+		}
+		return txCase{msgs: []aMsg{{msg: m, kind: "o", label: "submit_proposal"}}, payer: h.intf, fee: fee, tag: "interfere:proposal-dry-run-lists"}
+	default:
+		var fees []govtypes.ExecutionFee
+		for _, ty := range msgTypeCands {
+			fees = append(fees, govtypes.ExecutionFee{TransactionType: ty, ExecutionFee: 0, FailureFee: 0, Timeout: 10})
+		}
+		m, err := govtypes.NewMsgSubmitProposal(me, "t", "d", govtypes.NewSetExecutionFeesProposal(me, "d", fees))
+		if err != nil {
+			panic(err)
+		}
+		return txCase{msgs: []aMsg{{msg: m, kind: "o", label: "submit_proposal"}}, payer: h.intf, fee: fee, tag: "interfere:proposal-dry-run-exec-fees"}
+	}
 }
 
 func showCoinsLine(c sdk.Coins) string {
